@@ -40,7 +40,7 @@ ANCHORS = ['verify:get_file_metadata', 'recursiveloader:ManifestLoader.verify_an
            'recursiveloader:ManifestRecursiveLoader.load_unregistered_manifests',
            'util:throw_exception', 'compression:open_potentially_compressed_path']
 REQUIRED = ['verify:get_file_metadata', 'faults_fired', 'fp:verify', 'fp:verify-k',
-            'fp:update', 'fp:cli-k', 'fp:cli-sub', 'priv_runs', 'strace_runs']
+            'fp:update', 'fp:verify-mtime', 'fp:update-inc', 'fp:cli-k', 'fp:cli-sub', 'priv_runs', 'strace_runs']
 ASSUMPTIONS = ['single faults (one injected error per execution)',
                'ENOENT, ENXIO, EOPNOTSUPP are excluded (statement / device-only, U9)',
                'Python-level failpoints cover os.open os.stat os.lstat os.fstat '
@@ -51,7 +51,7 @@ ASSUMPTIONS = ['single faults (one injected error per execution)',
 
 ERRNOS = [errno.EACCES, errno.EPERM, errno.EIO, errno.ENOMEM, errno.ELOOP,
           errno.ENOTDIR, errno.EMFILE, errno.ENFILE, errno.ESTALE, errno.EOVERFLOW]
-OPS = ['verify', 'verify-k', 'update']
+OPS = ['verify', 'verify-k', 'update', 'verify-mtime', 'update-inc']
 CLI_OPS = ['cli-k', 'cli-sub']      # through gemato.cli.main (discovery included)
 NTREES = {'quick': 24, 'thorough': 600}
 
@@ -81,7 +81,14 @@ def setup_worker(ctx):
 def build_tree(rng, root):
     """Consistent tree; every second one gets one stray file (the object whose
     failing access must not be mistaken for 'absent')."""
-    classes = ['stray'] if rng.random() < 0.5 else []
+    classes = []
+    r = rng.random()
+    if r < 0.4:
+        classes = ['stray']
+    elif r < 0.6:
+        # an unreferenced file that has a Manifest name (valid Manifest or not): a
+        # candidate the update scan has to open
+        classes = [rng.choice(['stray-manifest-name', 'unreg-valid', 'unreg-invalid'])]
     case, layout, info = scenario.build(
         rng, root, classes, 1 if classes else 0,
         {'max_dirs': 4, 'max_files': 8, 'specials': False,
@@ -115,9 +122,17 @@ def run_op(root, op, sub=None):
                                         verify_openpgp=False)
             return ('ret', m.assert_directory_verifies('',
                                                        fail_handler=lambda e: False))
+        if op == 'verify-mtime':
+            # nothing is newer than last_mtime: unchanged-looking files may be skipped
+            m = ManifestRecursiveLoader(os.path.join(root, 'Manifest'),
+                                        verify_openpgp=False)
+            return ('ret', m.assert_directory_verifies('', last_mtime=4e9))
         m = ManifestRecursiveLoader(os.path.join(root, 'Manifest'),
                                     verify_openpgp=False, hashes=['SHA256', 'MD5'])
-        m.update_entries_for_directory('')
+        if op == 'update-inc':
+            m.update_entries_for_directory('', last_mtime=4e9)
+        else:
+            m.update_entries_for_directory('')
         return ('ret', 'updated')
     except Exception as exc:
         return ('exc', exc)
@@ -131,7 +146,7 @@ def judge_outcome(ctx, op, kind, val, fired, case, err):
             ctx.violation('fault-swallowed:%s:%s' % (op, fired[0]),
                           '%s returned True although %s #%d (%s) failed with %s'
                           % (op, fired[0], fired[1], fired[2], name), case)
-        elif op == 'update':
+        elif op.startswith('update'):
             ctx.violation('update-survives-fault:%s' % fired[0],
                           'update scan completed although %s #%d (%s) failed with %s'
                           % (fired[0], fired[1], fired[2], name), case)
@@ -167,11 +182,11 @@ def run_fp(u, ctx):
                 # (the sub-directory itself may hold the stray: fine, faults must
                 # still never turn the outcome into success)
                 pass
-            if not has_stray and (kind != 'ret' or (op != 'update'
+            if not has_stray and (kind != 'ret' or (not op.startswith('update')
                                                     and val is not True)):
                 ctx.discarded('baseline of %s not clean: %r' % (op, val))
                 continue
-            if op == 'update' and kind != 'ret':
+            if op.startswith('update') and kind != 'ret':
                 ctx.discarded('baseline update failed: %r' % (val,))
                 continue
             ctx.count('fp:' + op)
@@ -207,7 +222,7 @@ def run_fp(u, ctx):
                             ctx.violation('write-during-failed-%s' % op,
                                           'write-intent events during a failing %s: '
                                           '%r' % (op, rec.events[:3]), case)
-                        if op == 'update' or rec.events:
+                        if op.startswith('update') or rec.events:
                             if gtree.snapshot(root) != snap0:
                                 ctx.violation('tree-changed-by-failed-%s' % op,
                                               'tree differs after a failed %s' % op,
